@@ -172,6 +172,14 @@ def pred_1d(case):
             if len(xi) and np.abs(di - _poly(case["poly"], xi, a, L, 1)).max() > td:
                 raise Violation("C08:%s:polynomial-slopes" % tag, "derivative of degree-%d polynomial not reproduced: max error %.3e (tol %.3e)"
                                 % (len(case["poly"]) - 1, np.abs(di - _poly(case["poly"], xi, a, L, 1)).max(), td))
+    # ---- the scalar entry point at the two ends of the point set (for clamped spaces the domain ends) --------------
+    if kind != "complex":
+        with crash_is_violation("C08:eval", "scalar evaluation of the interpolant at the end points"):
+            e0, e1 = spl.eval(float(g[0])), spl.eval(float(g[-1]))
+        for what, got_, want_ in (("first", e0, data[0]), ("last", e1, data[-1])):
+            if not abs(got_ - want_) <= tol:
+                raise Violation("C08:%s:roundtrip-scalar-ends" % tag, "Spline1D.eval(float) at the %s interpolation point gives %r, "
+                                "the datum is %r (tol %.2e)" % (what, got_, want_, tol))
     # ---- the same interpolator / spline re-used for other data behaves like a fresh one ------------
     other = data[::-1] * 0.5 + 1.0
     with crash_is_violation("C08:interp1d", "compute_interpolant (re-used objects)"):
